@@ -128,6 +128,7 @@ Definition run_jsr (s : sexp) : sexp :=
   | L [A _; w; L [pc]; roots] =>
       match dec_jworld w, as_bool pc, as_atoms roots with
       | Some W, Some p, Some rs =>
+          if negb (wf_jworld W) then L [A 434343] else
           match jbuild W {| jo_prefer_cached := p |} rs with
           | Some g => L [enc_jgraph g]
           | None => L [A 424242]
